@@ -495,7 +495,7 @@ def run_workers(cases, boundscheck: bool, nworkers: int = 12, per_case_timeout: 
             data = "".join(json.dumps(cases[i], separators=(",", ":")) + "\n" for i in todo)
             try:
                 p = subprocess.run([sys.executable, os.path.abspath(__file__), "--worker"], input=data, capture_output=True,
-                                   text=True, env=env, timeout=30 + per_case_timeout * len(todo) / 4)
+                                   text=True, env=env, timeout=120 + per_case_timeout * len(todo))
                 out, why = p.stdout, f"worker exited with status {p.returncode}"
                 finished = p.returncode == 0
             except subprocess.TimeoutExpired as e:
@@ -520,6 +520,25 @@ def run_workers(cases, boundscheck: bool, nworkers: int = 12, per_case_timeout: 
         t.start()
     for t in threads:
         t.join()
+    # a worker that ran out of TIME says nothing about the code (a loaded machine is enough): the case is run again on
+    # its own with a generous limit; if it still does not finish the check stops as an infrastructure error (exit 2),
+    # never as a violation.  A worker that DIED (signal / non-zero status) is a result and is judged.
+    for i, r in enumerate(results):
+        if r is not None and r.get("crashed") == "worker hung (timeout)":
+            data = json.dumps(cases[i], separators=(",", ":")) + "\n"
+            try:
+                p = subprocess.run([sys.executable, os.path.abspath(__file__), "--worker"], input=data, capture_output=True,
+                                   text=True, env=env, timeout=1200)
+            except subprocess.TimeoutExpired:
+                raise common.InfraError(f"history worker did not finish within 1200 s on its own: {cases[i]}")
+            lines = [l for l in p.stdout.split("\n") if l.strip()]
+            if lines:
+                try:
+                    results[i] = json.loads(lines[0])
+                except Exception:  # noqa: BLE001
+                    results[i] = {"crashed": "unparsable worker output"}
+            else:
+                results[i] = {"crashed": f"worker exited with status {p.returncode}"}
     for i, r in enumerate(results):
         if r is None:
             results[i] = {"crashed": "no result"}
